@@ -112,12 +112,48 @@ def hexText (s : String) : String := String.ofList (s.toList.flatMap fun c => [h
 /-- the corpus' migrate handlers answer with this data (the other handlers set none) -/
 def echoData (call : Call) : String := if call.kind = .migrate then hexText ("m:" ++ call.handler) else "-"
 
+/-- what a query handler of the corpus returns on success: one of the prelude's response structs, or the echo as a plain
+`String` / as `Binary` (the JSON encoding of the returned value differs: an object, a string, a base64 string) -/
+inductive RespBody | struct | str | bin
+  deriving DecidableEq, Repr
+
+def respBodyOfTy : Ty → RespBody
+  | .path (.cons "String" .nil .nil) => .str
+  | .path (.cons "Binary" .nil .nil) => .bin
+  | _ => .struct
+
+def respBody : Ty → RespBody
+  | .path (.cons "StdResult" (.cons t .nil) .nil) => respBodyOfTy t
+  | .path (.cons "Result" (.cons t _) .nil) => respBodyOfTy t
+  | _ => .struct
+
+def b64Char (n : Nat) : Char :=
+  if n < 26 then Char.ofNat (65 + n) else if n < 52 then Char.ofNat (97 + (n - 26)) else if n < 62 then Char.ofNat (48 + (n - 52))
+  else if n = 62 then '+' else '/'
+
+/-- standard base64 with padding (what `cosmwasm_std::Binary` serialises to) -/
+def base64 : List Nat → List Char
+  | a :: b :: c :: r =>
+    b64Char (a / 4) :: b64Char ((a % 4) * 16 + b / 16) :: b64Char ((b % 16) * 4 + c / 64) :: b64Char (c % 64) :: base64 r
+  | [a, b] => [b64Char (a / 4), b64Char ((a % 4) * 16 + b / 16), b64Char ((b % 16) * 4), '=']
+  | [a] => [b64Char (a / 4), b64Char ((a % 4) * 16), '=', '=']
+  | [] => []
+
+def pairsText (attrs : List (String × String)) : String := "|".intercalate (attrs.map fun (k, v) => k ++ "=" ++ v)
+
+/-- the JSON encoding of the value a query handler of the corpus returns -/
+def queryBody (ret : Ty) (attrs : List (String × String)) : Json :=
+  match respBody ret with
+  | .struct => Json.obj [("attrs", .arr (attrs.map fun (k, v) => .arr [.str k, .str v]))]
+  | .str => .str (pairsText attrs)
+  | .bin => .str (String.ofList (base64 (Gen.bytesOf (pairsText attrs))))
+
 def showOutcome (p : Program) : Outcome → String
   | .decodeErr t => "de-" ++ t
   | .ran call m _ =>
     if call.ctx.fail = call.handler then "err " ++ failText p.contract.error.isSome (retErrTy m.ret) call.handler
     else if call.kind = .query then
-      "ok " ++ (Json.obj [("attrs", .arr ((echoAttrs call).map fun (k, v) => .arr [.str k, .str v]))]).render
+      "ok " ++ (queryBody m.ret (echoAttrs call)).render
     else
       "ok " ++ "|".intercalate ((echoAttrs call).map fun (k, v) => k ++ "=" ++ v)
         ++ " msgs=0 events=0 data=" ++ echoData call ++ " stored=" ++ call.handler
